@@ -71,6 +71,9 @@ pub struct Post {
     /// order, directly after the first call: an answer belongs to its row, not to its position in an earlier call
     #[serde(default)]
     pub requery: u8,
+    /// the parameter value handed to `fit` is a clone of the one that was built (cross_validate clones its parameters)
+    #[serde(default)]
+    pub clone_params: bool,
 }
 
 fn post_of(seed: u64) -> Post {
@@ -78,7 +81,8 @@ fn post_of(seed: u64) -> Post {
     let many = if r.chance(0.012) { *r.pick(&[1030usize, 1030, 2060, 4100, 4100, 8200, 16_400, 65_600]) } else { 0 };
     let roundtrip = if r.chance(0.2) { 1 + r.below(2) as u8 } else { 0 };
     let requery = if r.chance(0.15) { 1 + r.below(2) as u8 } else { 0 };
-    Post { many, roundtrip, requery }
+    let clone_params = r.chance(0.3);
+    Post { many, roundtrip, requery, clone_params }
 }
 
 /// scrambled repetition of m standard rows up to `total` rows: source index of every row of the big matrix
@@ -324,6 +328,7 @@ impl C10 {
                     .with_tol(T::from_f64(tol_eff).unwrap())
                     .with_c(T::from_f64(c_eff).unwrap())
             };
+            let params = if case.post.clone_params { let c2 = params.clone(); drop(params); c2 } else { params };
             guarded(|| if case.ctor / 2 == 1 { <SVC<T, DenseMatrix<T>, _> as SupervisedEstimator<DenseMatrix<T>, Vec<T>, _>>::fit(&x, &y, params) } else { SVC::fit(&x, &y, params) })
         };
         let log = guard.log();
@@ -704,7 +709,7 @@ impl C10 {
                     .with_tol(T::from_f64(tol_eff).unwrap())
                     .with_c(T::from_f64(c_eff).unwrap())
             };
-            guarded(|| if case.ctor / 2 == 1 { <SVR<T, DenseMatrix<T>, _> as SupervisedEstimator<DenseMatrix<T>, Vec<T>, _>>::fit(&x, &y, params) } else { SVR::fit(&x, &y, params) })
+            { let params = if case.post.clone_params { let c2 = params.clone(); drop(params); c2 } else { params }; guarded(|| if case.ctor / 2 == 1 { <SVR<T, DenseMatrix<T>, _> as SupervisedEstimator<DenseMatrix<T>, Vec<T>, _>>::fit(&x, &y, params) } else { SVR::fit(&x, &y, params) }) }
         };
         let log = guard.log();
         drop(guard);
